@@ -482,7 +482,8 @@ def run_job(build, pid, job, tier_caps, findings):
     known_lines = []
     got = SLOTS.acquire(slots)
     try:
-        for attempt in range(6):
+        unwind_retries = 0
+        for attempt in range(8):
             defs_extra = []
             if excluded:
                 defs_extra.append("-DVP_EXCLUDE_EXPR=(%s)" % exclusion_expr(excluded))
@@ -525,6 +526,17 @@ def run_job(build, pid, job, tier_caps, findings):
                     rec.update(status="broken", reason="expected assertion '%s' missing from result list" % exp)
                     return rec
             other_fail = [f for f in pr["failed"] if f[0] not in pr["unwind_fail"]]
+            if pr["unwind_fail"] and (job.get("witness") or not other_fail) and unwind_retries < 2:
+                # a loop the job table does not know (e.g. after a refactoring of /repo) or a bound that became too small:
+                # raise the bound of exactly the loops that failed and decide again; the bound actually used is recorded
+                unwind_retries += 1
+                job = dict(job, unwindset=dict(job.get("unwindset", {})))
+                for pidn in pr["unwind_fail"]:
+                    lid = pidn.replace(".unwind.", ".").replace(".recursion", "")
+                    cur = job["unwindset"].get(lid, job.get("unwind", 2))
+                    job["unwindset"][lid] = max(17, 4 * cur + 2)
+                rec["unwind_raised"] = {k: v for k, v in job["unwindset"].items() if k in [x.replace(".unwind.", ".") for x in pr["unwind_fail"]]}
+                continue
             if pr["unwind_fail"] and (job.get("witness") or not other_fail):
                 rec.update(status="broken" if not job.get("unwind_is_undecided") else "undecided", reason="unwinding assertion failed (bound too small): %s" % pr["unwind_fail"][:4])
                 return rec
